@@ -116,21 +116,27 @@ type knownFinding struct {
 	Commit   string `json:"commit,omitempty"`
 }
 
+// loadKnown reads /verif/KNOWN_FINDINGS.txt.  Lines:
+//
+//	open: property=<id> key=<key> <what fails>
+//	fixed: property=<id> <commit> <what failed>      (suppresses nothing)
 func loadKnown() []knownFinding {
 	var out []knownFinding
-	b, err := os.ReadFile(filepath.Join(verifRoot, "known_findings.jsonl"))
+	b, err := os.ReadFile(filepath.Join(verifRoot, "KNOWN_FINDINGS.txt"))
 	if err != nil {
 		return nil
 	}
 	for _, ln := range strings.Split(string(b), "\n") {
 		ln = strings.TrimSpace(ln)
-		if ln == "" || strings.HasPrefix(ln, "#") {
+		if !strings.HasPrefix(ln, "open:") {
 			continue
 		}
-		var k knownFinding
-		if json.Unmarshal([]byte(ln), &k) == nil {
-			out = append(out, k)
+		f := strings.Fields(strings.TrimPrefix(ln, "open:"))
+		if len(f) < 3 || !strings.HasPrefix(f[0], "property=") || !strings.HasPrefix(f[1], "key=") {
+			continue
 		}
+		out = append(out, knownFinding{Status: "open", Property: strings.TrimPrefix(f[0], "property="),
+			Key: strings.TrimPrefix(f[1], "key="), ID: strings.TrimPrefix(f[1], "key="), What: strings.Join(f[2:], " ")})
 	}
 	return out
 }
